@@ -89,7 +89,7 @@ bool parse_long(const std::string& w, long& out)
     out = x;
     return true;
 }
-bool parse_arg(const std::string& w, Val& v)
+bool parse_arg0(const std::string& w, Val& v)
 {
     if (w.empty()) return false;
     v.kind = w[0];
@@ -135,6 +135,9 @@ bool parse_arg(const std::string& w, Val& v)
     }
 }
 bool stateless(const Val& v) { return v.kind == 's' || v.kind == 'n' || v.kind == 'r' || v.kind == 'l' || v.kind == 'c' || v.kind == 'i' || v.kind == 'd' || v.kind == 'b' || v.kind == 'f'; }
+// loc cases (global locale with digit grouping): only the state-neutral kinds are in scope there
+bool g_loc_mode = false;
+bool parse_arg(const std::string& w, Val& v) { return parse_arg0(w, v) && (!g_loc_mode || stateless(v)); }
 bool all_kind(const std::vector<Val>& v, char k)
 {
     for (auto& x : v) if (x.kind != k) return false;
@@ -470,11 +473,38 @@ std::string run_rel(const std::string& scn, const std::string& fmt, const std::s
     return "BADCASE";
 }
 
+// ---- the program's global locale (loc cases) ----
+// a locale that differs from the classic one only in how numbers are punctuated
+struct grouping_punct : std::numpunct<char>
+{
+    char do_thousands_sep() const override { return ','; }
+    char do_decimal_point() const override { return ';'; }
+    std::string do_grouping() const override { return "\3"; }
+};
+struct global_locale_guard
+{
+    std::locale old;
+    global_locale_guard() : old(std::locale::global(std::locale(std::locale::classic(), new grouping_punct))) {}
+    ~global_locale_guard() { std::locale::global(old); }
+};
+
 static std::string run_case_inner(const std::vector<std::string>& w);
-static std::string run_case(const std::vector<std::string>& w)
+static std::string run_case(const std::vector<std::string>& w0)
 {
     g_vars.clear();
-    std::string out = run_case_inner(w);
+    std::string out;
+    if (!w0.empty() && w0[0] == "loc")
+    {
+        // every stream the library creates from here on carries the grouping locale; restored when the case ends
+        const std::vector<std::string> w(w0.begin() + 1, w0.end());
+        global_locale_guard guard;
+        g_loc_mode = true;
+        try { out = run_case_inner(w); }
+        catch (...) { g_loc_mode = false; throw; }
+        g_loc_mode = false;
+    }
+    else
+        out = run_case_inner(w0);
     // arguments are values: formatting must not modify the caller's variables
     for (auto& kv : g_vars)
         if (kv.first != kv.second) out += " CALLER-VARIABLE-MODIFIED(" + vh::hex(kv.first) + "->" + vh::hex(kv.second) + ")";
